@@ -35,6 +35,19 @@ def cases(rng, tier):
         yield Case(["q scd " + s], {"kind": "das-pappu"})
     for kind, s in gen.rand_seqs(rng, 150 if tier == "quick" else 1500, 300):
         yield Case(["q scd " + s], {"kind": kind}, nontrivial=sum(c in "KRDE" for c in s) >= 2)
+    # exactly two charges at EVERY length (a count derived from a float fraction is where a guard can misfire at particular N)
+    for s in gen.two_charge_seqs(260 if tier == "quick" else 420):
+        if tier != "quick" or s[0] == "K":
+            yield Case(["q scd " + s], {"kind": "two-charges-every-length"})
+    for n in range(1, 130 if tier == "quick" else 300):
+        yield Case(["q scd " + "G" * (n // 2) + "K" + "G" * (n - n // 2)], {"kind": "one-charge-every-length"}, nontrivial=False)
+        yield Case(["q scd " + "E" + "G" * (n // 3) + "K" + "G" * (n - n // 3) + "R"], {"kind": "three-charges-every-length"})
+    # raw constructor arguments with white space (blocks of ten, line breaks, tabs): same answers as the normalised word
+    for kind, s in gen.rand_seqs(rng, 30 if tier == "quick" else 300, 80):
+        yield Case(gen.ws_lines(["q scd " + s], rng), {"kind": "whitespace-input"})
+    # long sequences with > 127 / > 255 charged or neutral residues, net charge beyond +-127, length > 256
+    for s in gen.large_regime():
+        yield Case(["q scd " + s], {"kind": "large-regime"})
 
 
 def judge(case, reals, gens, specs):
